@@ -61,7 +61,10 @@ def cel_panics(res):
              ("string", "value.contains('a') && startsWith(value, 'a')"), ("[]string", "value.all(s, s.startsWith('#'))"),
              ("[]string", "value.exists(s, s.endsWith('x'))"), ("string", "size(value) > 0 && value.startsWith(value)"), ("string", "value.matches('')"),
              ("string", "value + value == 'aa' || value < 'b'"), ("string", "int(value) > 1 || value == ''"), ("map[string]int", "'k' in value && size(value) < 3"),
-             ("int", "-value < 3 && !(value % 2 == 0)"), ("int8", "value * value >= 0"), ("int", "value - (this.A - 3) != 0 && 7 / (value - (this.A - 3)) >= 0")]
+             ("int", "-value < 3 && !(value % 2 == 0)"), ("int8", "value * value >= 0"), ("int", "value - (this.A - 3) != 0 && 7 / (value - (this.A - 3)) >= 0"),
+             # a pattern that is only known at run time (D35): the companion S takes invalid patterns
+             ("string", "value.matches(this.S)"), ("string", "matches(this.S, value)"), ("string", "value.matches(this.S + '$') || value == ''"),
+             ("[]string", "value.all(s, s.matches(this.S))"), ("string", "this.S.matches(value)")]
     rng = random.Random(res.seed)
     scen = [celgen.scenario_for("c17cel%d" % i, vt, e, rng, 60) for i, (vt, e) in enumerate(exprs)]
     d = os.path.join(scratch(), "c17cel")
